@@ -202,7 +202,7 @@ impl Property for C11 {
             Case::new("root", vec![Arg::Z(false, v.to_u64_digits()), Arg::U(n as u128)])
         });
         // degrees in the band between ~100 and the bit length: n = bits(x) / k (large degree, root of a few bits)
-        let band = (gen::big_nat(vec![17, 20, 33, 40, big.min(64), big]), 2u64..=24, -1i64..=1, any::<bool>()).prop_map(|(a, k, d, neg)| {
+        let band = (gen::big_nat(vec![17, 20, 33, 40, big.min(64), big.min(200)]), 2u64..=24, -1i64..=1, any::<bool>()).prop_map(|(a, k, d, neg)| {
             let bits = Nat::from_u64_digits(&a).bits();
             let n = ((bits / k) as i64 + d).clamp(1, u32::MAX as i64) as u128;
             Case::new("root", vec![Arg::Z(neg && n % 2 == 1, a), Arg::U(n)])
